@@ -1,2 +1,99 @@
-/- driver stub for C18: replaced when the model exists -/
-def main : IO Unit := pure ()
+/- driver for C18: addresses (Model.Addr) -/
+import BacVerif.Drv.Common
+import BacVerif.Model.Addr
+open Lean BacVerif BacVerif.Drv BacVerif.Addr
+
+def jStr (cs : List Char) : Json := Json.str (String.ofList cs)
+
+def jBytesOpt : Option Bytes → Json
+  | none => Json.null
+  | some b => jHex b
+
+def jIP : Option IPInfo → Json
+  | none => Json.null
+  | some i => Json.mkObj [("ip", Json.num i.ip), ("mask", Json.num i.mask), ("host", jNatOpt i.host),
+      ("subnet", jNatOpt i.subnet), ("port", Json.num i.port), ("th", jStr i.tupHost),
+      ("bh", jStr i.bcastHost)]
+
+def jKey (a : Addr) : Json := Json.arr #[Json.num a.ty.code, jNatOpt a.net, jBytesOpt a.addr]
+
+/-- branch label of the string recogniser -/
+def brStr (s : List Char) : String :=
+  if s = ['*'] then "lit*" else if s = ['*', ':', '*'] then "lit*:*" else
+  let t := stripNl s
+  let nl := if t = s then "" else "+nl"
+  match matchCombined t with
+  | some (p, b) =>
+    let ps := match p with | .none => "-" | .net _ => "n" | .star => "*"
+    let bs := match b with
+      | .star => "*" | .dec _ => "d" | .hex _ => "x"
+      | .ip _ _ _ _ m q => "ip" ++ (if m.isSome then "/" else "") ++ (if q.isSome then ":" else "")
+    s!"comb:{ps}{bs}{nl}"
+  | none =>
+    if (matchEthernet t).isSome then "eth" ++ nl
+    else if (matchXHex t).isSome then "X" ++ nl
+    else if (matchNetXHex t).isSome then "nX" ++ nl
+    else "none"
+
+partial def build (j : Json) : R (Except Err Addr × String) := do
+  match ← fldStr j "k" with
+  | "str" => let s ← fldStr j "s"; pure (parse s.toList, "str:" ++ brStr s.toList)
+  | "int" => pure (ofInt (← fldInt j "n"), "int")
+  | "bytes" => pure (ofBytes (← fldHex j "x"), "bytes")
+  | "tups" => pure (ofTupleStr (← fldStr j "h").toList (← fldInt j "p"), "tups")
+  | "tupi" => pure (ofTupleInt (← fldInt j "h") (← fldInt j "p"), "tupi")
+  | "net2" =>
+      let (inner, br) ← build (← fld j "a")
+      pure (ctor2 (← fldInt j "net") inner, "net2/" ++ br)
+  | "LS" => pure (localStationInt (← fldInt j "n"), "LS")
+  | "LSb" => pure (localStationBytes (← fldHex j "x"), "LSb")
+  | "RS" => pure (remoteStationInt (← fldInt j "net") (← fldInt j "n"), "RS")
+  | "RSb" => pure (remoteStationBytes (← fldInt j "net") (← fldHex j "x"), "RSb")
+  | "LB" => pure (.ok mkLocalBroadcast, "LB")
+  | "RB" => pure (remoteBroadcast (← fldInt j "net"), "RB")
+  | "GB" => pure (.ok mkGlobalBroadcast, "GB")
+  | "null" => pure (.ok mkNull, "null")
+  | k => throw s!"unknown ctor {k}"
+
+def jAddr (a : Addr) (br : String) : Json :=
+  let (str, rt, pb) : Json × Json × String :=
+    match printAddr a with
+    | .error e => (Json.mkObj [("err", e.name)], Json.null, "perr")
+    | .ok s =>
+      (jStr s,
+       (match parse s with
+        | .ok a' => jKey a'
+        | .error e => Json.mkObj [("err", e.name)]),
+       (match a.addr with
+        | none => "b"
+        | some bs => if bs.length = 1 then "1" else if s.take 2 = ['0', 'x'] ∨ (s.dropWhile isDig).take 3 = [':', '0', 'x'] then "x" else "ip"))
+  jOk [("ty", Json.num a.ty.code), ("net", jNatOpt a.net), ("addr", jBytesOpt a.addr),
+       ("len", jNatOpt a.len), ("ip", jIP a.ip), ("str", str), ("rt", rt),
+       ("br", Json.str (br ++ "|" ++ pb))]
+
+def handle (j : Json) : R Json := do
+  match ← fldStr j "op" with
+  | "mk" =>
+      let (r, br) ← build (← fld j "c")
+      match r with
+      | .error e => pure (Json.mkObj [("r", "err"), ("k", e.name), ("br", Json.str br)])
+      | .ok a => pure (jAddr a br)
+  | "eq" =>
+      let (ra, _) ← build (← fld j "a")
+      let (rb, _) ← build (← fld j "b")
+      match ra, rb with
+      | .ok a, .ok b =>
+          pure (jOk [("eq", Json.bool (addrEq a b)), ("hk", Json.bool (hashKey a == hashKey b)),
+                     ("br", Json.str (if addrEq a b then "eq" else "ne"))])
+      | .error e, _ => pure (jErr e)
+      | _, .error e => pure (jErr e)
+  | "pack" =>
+      match packIp (← fldStr j "h").toList (← fldNat j "p") with
+      | .ok b => pure (jOk [("hex", jHex b)])
+      | .error e => pure (jErr e)
+  | "unpack" =>
+      let (h, p) := unpackIp (← fldHex j "x")
+      pure (jOk [("h", jStr h), ("p", Json.num p)])
+  | op => throw s!"unknown op {op}"
+
+def main : IO Unit := loop handle
